@@ -132,11 +132,25 @@ func (m M) scale(s float64) M {
 
 // fro is the Frobenius norm; NaN if any element is NaN.
 func fro(m M) float64 {
+	var big float64
+	for _, v := range m.a {
+		if math.IsNaN(v) {
+			return math.NaN()
+		}
+		big = math.Max(big, math.Abs(v))
+	}
+	if big == 0 || math.IsInf(big, 0) {
+		return big
+	}
+	// scaled by a power of two so that entries near the overflow / underflow
+	// thresholds do not overflow or vanish when squared
+	_, e := math.Frexp(big)
 	var s float64
 	for _, v := range m.a {
-		s += v * v
+		x := math.Ldexp(v, -e)
+		s += x * x
 	}
-	return math.Sqrt(s)
+	return math.Ldexp(math.Sqrt(s), e)
 }
 
 func (m M) sub(i0, i1, j0, j1 int) M {
@@ -287,6 +301,15 @@ func hasNaN(v []float64) bool {
 // jacobiEig returns the eigenvalues of the symmetric matrix a in ascending order.
 func jacobiEig(a M) []float64 {
 	n := a.r
+	// work at unit scale: divide by a power of two first, multiply the result back
+	e := scaleExp(a)
+	if e != 0 {
+		ev := jacobiEig(a.scale(pow2(-e)))
+		for i := range ev {
+			ev[i] = math.Ldexp(ev[i], e)
+		}
+		return ev
+	}
 	w := a.clone()
 	for sweep := 0; sweep < 60; sweep++ {
 		var off float64
@@ -350,6 +373,13 @@ func jacobiEig(a M) []float64 {
 func jacobiSV(a M) []float64 {
 	if a.r < a.c {
 		a = a.T()
+	}
+	if e := scaleExp(a); e != 0 {
+		sv := jacobiSV(a.scale(pow2(-e)))
+		for i := range sv {
+			sv[i] = math.Ldexp(sv[i], e)
+		}
+		return sv
 	}
 	m, n := a.r, a.c
 	w := a.clone()
@@ -677,4 +707,46 @@ func p3[V any](g *vlib.G, l0, l1, l2 V) V {
 		return l1
 	}
 	return l2
+}
+
+// ladder is the magnitude ladder 2^e applied to the inputs of routines that do
+// not rescale their argument themselves: results must be the scaled results
+// (orthogonal factors unchanged). Exponents beyond what a routine documents or
+// can support (norm below its smlnum, squares that overflow) are left out per
+// group; see NOTES.md "Magnitude ladders".
+func ladder(g *vlib.G, exps ...int) []int {
+	if lvl(g) == 0 {
+		// thin version: the two extremes and the middle
+		return []int{exps[0], exps[len(exps)-1]}
+	}
+	return exps
+}
+
+func pow2(e int) float64 { return math.Ldexp(1, e) }
+
+// scaleExp returns the binary exponent of the largest entry of a when it is far
+// from 1 (beyond 2^+-100), else 0.
+func scaleExp(a M) int {
+	var big float64
+	for _, v := range a.a {
+		if x := math.Abs(v); x > big && !math.IsInf(x, 0) {
+			big = x
+		}
+	}
+	if big == 0 {
+		return 0
+	}
+	_, e := math.Frexp(big)
+	if e > 100 || e < -100 {
+		return e
+	}
+	return 0
+}
+
+// scaledFam is f with every matrix multiplied by 2^exp.
+func scaledFam(f family, exp int) family {
+	g := f
+	g.name = fmt.Sprintf("%s@2^%d", f.name, exp)
+	g.gen = func(r, c int) M { return f.gen(r, c).scale(pow2(exp)) }
+	return g
 }
